@@ -395,12 +395,37 @@ fn check_socket(count: &u32, case: &mut Case) -> Result<(), Fail> {
                 *rp.lock().unwrap() = Some(p);
             }
         });
+        // the async-tokio copy of the resolver, waiting for the same responses on its own runtime
+        let rp2 = resolver_panic.clone();
+        let async_resolver_thread = std::thread::Builder::new().name("vp-resolver-async".into()).spawn(move || {
+            let r = meter::catch(|| {
+                let Ok(rt) = tokio::runtime::Builder::new_current_thread().enable_all().build() else { return };
+                rt.block_on(async {
+                    if let Ok(mut resolver) = simple_mdns::async_discovery::OneShotMdnsResolver::new() {
+                        resolver.set_query_timeout(std::time::Duration::from_millis(250));
+                        for _ in 0..6 {
+                            let a = resolver.query_service_address_and_port("vp-bait.local").await;
+                            let b = resolver.query_service_address("vp-bait.local").await;
+                            if std::env::var_os("VERIF_DEBUG").is_some() {
+                                eprintln!("async resolver: {:?} {:?}", a, b);
+                            }
+                        }
+                    } else if std::env::var_os("VERIF_DEBUG").is_some() {
+                        eprintln!("async resolver: cannot be created");
+                    }
+                });
+            });
+            if let Err(p) = r {
+                *rp2.lock().unwrap() = Some(p);
+            }
+        });
         let bait_name = AName::from_strs(&["vp-bait", "local"]);
         let t_end = std::time::Instant::now() + std::time::Duration::from_millis(2600);
         let mut k = 0u32;
         while std::time::Instant::now() < t_end {
             // answers about the bait name: every kind of RDATA, also empty RDATA under the asked types
-            let rd = match k % 7 {
+            // a scrambled order: a fixed cycle phase-locks with the resolvers' query / answer rhythm
+            let rd = match (k.wrapping_mul(2654435761) >> 13) % 7 {
                 0 => ARData::Empty { code: 33 },
                 1 => ARData::Empty { code: 1 },
                 2 => default_typed(33),
@@ -422,6 +447,9 @@ fn check_socket(count: &u32, case: &mut Case) -> Result<(), Fail> {
             std::thread::sleep(std::time::Duration::from_millis(4));
         }
         if let Ok(t) = resolver_thread {
+            let _ = t.join();
+        }
+        if let Ok(t) = async_resolver_thread {
             let _ = t.join();
         }
     }
@@ -598,7 +626,7 @@ fn check_concurrent(seed: &u32, case: &mut Case) -> Result<(), Fail> {
 pub fn def() -> CheckDef {
     CheckDef {
         id: "C14",
-        rule: "(1) pure pipeline, proptest: a store pre-loaded by 0..7 random operations (as C13) plus a canary record; sequences of 1..19 datagrams drawn from {empty, 1..11 bytes, random bytes, reference encodings with hostile names and 0..8 mutations, valid queries, valid responses, responses under the watched service with hostile instance labels (non-UTF-8, 63 bytes, dots), 1000..9000-byte datagrams}; each datagram goes, step for step, through what the three receive loops do (responder: header peek with unwrap_or(true), parse, build_reply, build_bytes_vec_compressed; discovery: parse, add_response_to_resources (sync, or the async-tokio copy for every third response) under a real RwLock write guard with and without an on_discovery channel, or build_reply; application: get_known_services; one-shot resolver: header peek on a 4096-byte buffer, parse, answer scan). Oracle: no panic, lock not poisoned, every reply parses, the canary is still answered. (1b) six threads run the same handling steps concurrently against one shared store for 300 ms (no panic, lock not poisoned; schedules are whatever the OS gives). (2) real sockets, sampled: a real SimpleMdnsResponder and ServiceDiscovery (sync), then the async-tokio responder and discovery on a current-thread runtime, on loopback multicast receive 300 (6000 thorough) generated datagrams between two probe queries, and a real OneShotMdnsResolver issues queries while generated responses about the name it asks for (every RDATA kind, also empty RDATA under the asked types) arrive; violation iff a library thread panicked or the responder stops answering; skipped (no claim) when multicast is unusable. Non-trivial = a datagram shorter than 12 bytes or a parsed datagram with hostile names",
+        rule: "(1) pure pipeline, proptest: a store pre-loaded by 0..7 random operations (as C13) plus a canary record; sequences of 1..19 datagrams drawn from {empty, 1..11 bytes, random bytes, reference encodings with hostile names and 0..8 mutations, valid queries, valid responses, responses under the watched service with hostile instance labels (non-UTF-8, 63 bytes, dots), 1000..9000-byte datagrams}; each datagram goes, step for step, through what the three receive loops do (responder: header peek with unwrap_or(true), parse, build_reply, build_bytes_vec_compressed; discovery: parse, add_response_to_resources (sync, or the async-tokio copy for every third response) under a real RwLock write guard with and without an on_discovery channel, or build_reply; application: get_known_services; one-shot resolver: header peek on a 4096-byte buffer, parse, answer scan). Oracle: no panic, lock not poisoned, every reply parses, the canary is still answered. (1b) six threads run the same handling steps concurrently against one shared store for 300 ms (no panic, lock not poisoned; schedules are whatever the OS gives). (2) real sockets, sampled: a real SimpleMdnsResponder and ServiceDiscovery (sync), then the async-tokio responder and discovery on a current-thread runtime, on loopback multicast receive 300 (6000 thorough) generated datagrams between two probe queries, and a real OneShotMdnsResolver (sync, and the async-tokio copy on its own runtime) issues queries while generated responses about the name it asks for (every RDATA kind, also empty RDATA under the asked types) arrive; violation iff a library thread panicked or the responder stops answering; skipped (no claim) when multicast is unusable. Non-trivial = a datagram shorter than 12 bytes or a parsed datagram with hostile names",
         assumptions: vec![
             "the pure pipeline copies the loop bodies (simple_responder.rs, service_discovery.rs, oneshot_resolver.rs); an edit to the loops themselves is only visible to the socket section",
             "reader/writer interleavings on the shared store are only sampled (section concurrent), not explored systematically",
